@@ -31,6 +31,7 @@ type c17busy struct{ d time.Duration }
 
 func (m *c17member) Init(args ...any) error {
 	m.w.mu.Lock()
+	m.w.spawned = append(m.w.spawned, m.PID())
 	fail := m.w.failAt == m.idx
 	m.w.initOrder = append(m.w.initOrder, m.idx)
 	m.w.mu.Unlock()
@@ -65,6 +66,7 @@ type c17world struct {
 	failDelay time.Duration
 	busy      time.Duration // members are busy in a callback for this long right after their init
 	unnamed   bool          // members are not registered under a name
+	spawned   []gen.PID     // every member process that reached its Init
 	initOrder []int
 	starts    []gen.ApplicationMode
 	terms     []error
@@ -251,6 +253,22 @@ func runC17(c *Ctx) {
 					res = "state"
 				default:
 					res = "spawn"
+				}
+				if res == "spawn" {
+					// the members the failed start had spawned are killed; one that was busy terminates a moment later and keeps
+					// its registered name until then (a start issued meanwhile fails with 'taken', which the model does not
+					// follow): wait until all of them are gone
+					w.mu.Lock()
+					sp := append([]gen.PID(nil), w.spawned...)
+					w.mu.Unlock()
+					waitUntil(3*time.Second, func() bool {
+						for _, pid := range sp {
+							if _, err := k.Node.ProcessInfo(pid); err == nil {
+								return false
+							}
+						}
+						return true
+					})
 				}
 				lines = append(lines, fmt.Sprintf("start %s %d %s", mode, w.n, fail))
 				wants = append(wants, res+" "+observe())
